@@ -13,7 +13,7 @@ META = {
         "adjusted). R4 (WHO): the lot's cost_offset is written only by the apportioning method, which is called only from the "
         "capital-return and accumulation arms; the apportionment is adjustment × held ÷ total held over lots with held > 0. "
         "R5 (WHO): the fields of Operation::Dividend are never read in the matcher module (cash dividends cannot change a "
-        "disposal, leg or holding). Does not decide exactness of the apportionment or non-negativity per lot. R5 (dimension discipline): every addition, subtraction, accumulation and comparison of Decimals in the matcher and calculator whose two sides have a known dimension (shares / money / money per share / ratio, inferred from names, arithmetic and function returns) combines like with like. R6 (index space): an enumerate index handed to add_acquisition / used as a table key is a position in the whole transaction list — not taken after filter/filter_map/skip/… (shared with C09-R5)."),
+        "disposal, leg or holding). Does not decide exactness of the apportionment or non-negativity per lot. R5 (dimension discipline): every addition, subtraction, accumulation and comparison of Decimals in the matcher and calculator whose two sides have a known dimension (shares / money / money per share / ratio, inferred from names, arithmetic and function returns) combines like with like. R6 (index space): an enumerate index handed to add_acquisition / used as a table key is a position in the whole transaction list — not taken after filter/filter_map/skip/… (shared with C09-R5). R7: the three places that price a share of a lot agree on (amount×price + fees + offset) ÷ amount (shared with C03-R2): no clamp or floor loses part of an adjustment."),
     "trusted_base": ["rust_decimal arithmetic", "rustc MIR + resolution"],
 }
 
